@@ -2,9 +2,10 @@
    Model: Gram/Recover.v — the recovering parse loop of go_parser.go.tmpl (error reporting with the `recovering`
    counter, recoverFromError, skipBrokenCode, reduceAll) over the event loop of Gram/Events.v; the error handler
    is an ARBITRARY oracle (number of errors so far -> continue?). *)
-From Coq Require Import List ZArith Bool.
+From Coq Require Import List ZArith Bool Lia.
 From TM Require Import Gram.PTables Gram.Run Gram.Validator Gram.Events Gram.Recover Gram.Recover_proofs Gram.Recover_progress.
 From TM Require Import Gram.RedTerm Gram.RedTerm_proofs Gram.RedTermRec_proofs.
+From TM Require Import Gram.Cfg Gram.CertGen Gram.RecoverSafe Gram.RecoverSafe_proofs Gram.RedTermFuel_proofs Gram.RecoverFuel_proofs.
 Import ListNotations.
 Local Open Scope Z_scope.
 
@@ -160,16 +161,130 @@ Theorem C19_recovering_parse_terminates_under_an_invariant :
   forall c, Inv c -> exists f, fst (rrun_loop f p eh c) <> RFuel.
 Proof. exact rrun_terminates_inv. Qed.
 
-(* Still NOT proved (partial): (1) an explicit fuel bound for the whole parse from the validators (the bound above is
-   per reduction sequence and depends on the stack depth; C19_recovering_parse_fuel_bound keeps its uniform-R
-   hypothesis); (2) the premise m_goto (-1) err = -1 holds for the default encoding (evaluated by the check) but
-   not in the model of the optimized encoding, where the generated gotoState would index tmAction[-1] and panic; the
-   state -1 only appears after a reduction whose goto is missing, which C01's Validator.check excludes on stacks
-   spelled by the certificate, but that invariant is not carried through recovery here; note also that eoi_ends
-   (all integers as states) fails for opt_machine, so C19_recovering_parse_terminates is vacuous for optimized
-   tables while the theorem above uses check_eoi (table states only); (3) absence of the index-out-of-range crashes
-   modelled as RCrash (reduceAll walking below the stack, a goto of -1 inside reduceAll).  These are monitored:
-   generated parsers run under a time limit with recover(), and the model reports RCrash/RFuel. *)
+(* ---- certified tables: C01's Validator.check carried through recovery (both encodings) ---- *)
+(* What the generated code does with the state -1: the main loop pushes the result of gotoState after a reduction even
+   when it is -1 and then calls recoverFromError, whose first loop evaluates gotoState(stack[size-1].state, errSymbol)
+   for EVERY entry, i.e. also gotoState(-1, errSymbol): harmless with default tables (the FromTo search finds nothing),
+   an index-out-of-range (tmAction[-1]) with optimized tables.  So the state -1 reaches gotoState exactly when a reduction
+   finds no goto.  The theorems below show that this never happens on tables that pass C01's certificate check: the
+   stack of the recovering loop always spells a path of the certified LR automaton from the start state (sinv: Validator_proofs.stk
+   over the (symbol, state) pairs of the stack) -- also after recoverFromError has cut the stack and pushed the 'error'
+   entry, provided gotoState on 'error' agrees with the action table (check_err_goto, a boolean evaluated on the real tables) --
+   and on such stacks every reduction finds its goto (a table state) and leaves the bottom entry alone. *)
+Theorem C19_certified_stack_invariant :
+  forall g p nstates finals nl ft ann eh i,
+  lalr1 p -> check g (rp_m p) nstates finals nl ft ann = true ->
+  check_err_goto (rp_m p) nstates (vT g) (rp_err_sym p) = true -> (i < ninputs g)%nat ->
+  (forall input, toks_in g input -> sinv g p i (mkRC (mkXC [mkX 0 0 0 (Z.of_nat i) (TLeaf 0 0 0)] (Z.of_nat i) input []) 0 [] (0, 0))) /\
+  (forall c c', sinv g p i c -> rstep p eh c = RContinue c' -> sinv g p i c') /\
+  (forall c, sinv g p i c -> Forall (fun e => 0 <= x_state e < nstates) (xc_stack (rc_x c))) /\
+  (forall c rule, sinv g p i c ->
+     m_act (rp_m p) (xc_state (rc_x c)) (t_sym (next_tok (rp_eoi_off p) (xc_input (rc_x c)))) [] = Reduce rule ->
+     (Z.to_nat (m_rule_len (rp_m p) rule) < length (xc_stack (rc_x c)))%nat /\
+     exists b rest, skipn (Z.to_nat (m_rule_len (rp_m p) rule)) (xc_stack (rc_x c)) = b :: rest /\
+       0 <= m_goto (rp_m p) (x_state b) (m_rule_sym (rp_m p) rule) < nstates).
+Proof. exact certified_invariant. Qed.
+
+(* Crash freedom.  The model's RCrash outcomes stand for the index-out-of-range panics of the Go code: 1 = the main loop
+   pops the bottom entry, 2 = reduceAll walks below the stack / indexes tmAction[-1], 3 = recoverFromError's loop does not end.
+   The model's reduceAll also answers 2 when its own iteration budget 4 * (|stack| + 1) + 64 is used up (the Go function has no
+   budget).  On certified tables, for every input over the terminals, every handler and fuel: the only possible crash outcome
+   is that budget being exhausted by that many genuine consecutive reductions of the loop (model_fuel_exhausted) ... *)
+Theorem C19_recovering_parse_crashes_only_by_model_fuel :
+  forall g p nstates finals nl ft ann eh i,
+  lalr1 p -> check g (rp_m p) nstates finals nl ft ann = true ->
+  check_err_goto (rp_m p) nstates (vT g) (rp_err_sym p) = true -> (i < ninputs g)%nat ->
+  forall f input why, toks_in g input -> fst (rrun f p eh (Z.of_nat i) input) = RCrash why ->
+  why = 2 /\ model_fuel_exhausted g p i.
+Proof. exact rrun_crash_only_model_fuel. Qed.
+
+(* ... and when every anchored reduction phase ends within F <= 4 steps (check_redterm with F = 4: at most 4 * (h + 1) + 2
+   consecutive reductions on a stack of height h, below reduceAll's budget) the recovering loop never returns RCrash. *)
+Theorem C19_recovering_parse_never_crashes :
+  forall g p nstates finals nl ft ann eh F i,
+  lalr1 p -> check g (rp_m p) nstates finals nl ft ann = true ->
+  check_err_goto (rp_m p) nstates (vT g) (rp_err_sym p) = true ->
+  check_range (rp_m p) nstates (vT g) (vNS g) = true -> check_redterm (rp_m p) nstates (vT g) (vNS g) F = true ->
+  (F <= 4)%nat -> (i < ninputs g)%nat ->
+  forall f input why, toks_in g input -> fst (rrun f p eh (Z.of_nat i) input) <> RCrash why.
+Proof. exact rrun_never_crashes_certified. Qed.
+
+(* Termination on certified tables, WITHOUT the premise m_goto (-1) err = -1 (the state -1 never gets on the stack), for any
+   machine whose action looks at one terminal: every configuration of the invariant, every input over the terminals. *)
+Theorem C19_recovering_parse_terminates_on_certified_tables :
+  forall g p nstates finals nl ft ann eh F i,
+  lalr1 p -> shift_ok_sound p -> 0 <= rp_end p ->
+  check g (rp_m p) nstates finals nl ft ann = true ->
+  check_err_goto (rp_m p) nstates (vT g) (rp_err_sym p) = true ->
+  check_range (rp_m p) nstates (vT g) (vNS g) = true -> check_redterm (rp_m p) nstates (vT g) (vNS g) F = true ->
+  check_eoi (rp_m p) nstates (rp_end p) = true -> (i < ninputs g)%nat ->
+  (forall c, sinv g p i c -> exists f, fst (rrun_loop f p eh c) <> RFuel) /\
+  (forall input, toks_in g input -> exists f, fst (rrun f p eh (Z.of_nat i) input) <> RFuel).
+Proof. exact rrun_terminates_certified_tables. Qed.
+
+(* in particular for the optimized (displacement) encoding: opt_machine with reduceAll's test shift_ok_opt *)
+Theorem C19_recovering_parse_terminates_on_validated_optimized_tables :
+  forall g p o terms rl rs nstates finals nl ft ann eh F i,
+  rp_m p = opt_machine o terms rl rs -> rp_shift_ok p = shift_ok_opt o -> 0 <= rp_end p ->
+  check g (rp_m p) nstates finals nl ft ann = true ->
+  check_err_goto (rp_m p) nstates (vT g) (rp_err_sym p) = true ->
+  check_range (rp_m p) nstates (vT g) (vNS g) = true -> check_redterm (rp_m p) nstates (vT g) (vNS g) F = true ->
+  check_eoi (rp_m p) nstates (rp_end p) = true -> (i < ninputs g)%nat ->
+  forall input, toks_in g input -> exists f, fst (rrun f p eh (Z.of_nat i) input) <> RFuel.
+Proof. exact rrun_terminates_certified_opt. Qed.
+
+(* the evaluated form of C01's check (CertGen.validate = check_report on the generated certificate) *)
+Theorem C19_validate_zero_is_check :
+  forall g m nstates finals nl ft ann, check_report g m nstates finals nl ft ann = 0 -> check g m nstates finals nl ft ann = true.
+Proof. exact check_report_zero. Qed.
+
+(* ---- explicit fuel for the whole parse from the validators (replaces the uniform-R hypothesis of C19_recovering_parse_fuel_bound) ---- *)
+(* Amortised reduction bound: k consecutive reductions of the plain loop (reduce_n k x = Some y) from a configuration of the
+   invariant satisfy  k + F * |stack y| <= F * |stack x| + F^2 + 2 F + 1 : a phase that pops its anchor pays for its <= F
+   steps with the entry it removes, only the last phase can raise the stack (by <= F).  Implies the bound of
+   C19_reductions_bounded_by_stack_depth and bounds the height afterwards. *)
+Theorem C19_reductions_amortized_by_stack_depth :
+  forall p nstates T NS F, lalr1 p ->
+  check_redterm (rp_m p) nstates T NS F = true -> check_range (rp_m p) nstates T NS = true ->
+  forall x, xinv p nstates T x -> forall k y, reduce_n p k x = Some y ->
+  (k + F * length (xc_stack y) <= F * length (xc_stack x) + F * F + 2 * F + 1)%nat.
+Proof. exact redterm_amortized. Qed.
+
+(* With the potential F * |stack| (a shift or a recovery raises it by at most 2 F, every reduction sequence is paid by it up to
+   F^2 + 2 F + 1):  parse_fuel F h n = F h + F^2 + 2 F + 1 + (n + 1) (2 F^2 + 8 F + 4) + 3  iterations suffice from every
+   configuration of the invariant with stack height h and n tokens left, for every error handler -- linear in the input;
+   a parse of `input` needs at most parse_fuel F 1 |input| iterations.  Validated tables (default encoding): *)
+Theorem C19_recovering_parse_fuel_bound_on_validated_tables :
+  forall p eh nstates T NS F, lalr1 p -> shift_ok_sound p -> 0 <= rp_end p ->
+  check_range (rp_m p) nstates T NS = true -> check_redterm (rp_m p) nstates T NS F = true ->
+  check_eoi (rp_m p) nstates (rp_end p) = true ->
+  0 <= rp_err_sym p < NS -> m_goto (rp_m p) (-1) (rp_err_sym p) = -1 ->
+  (forall c, rinv nstates T c ->
+     fst (rrun_loop (parse_fuel F (length (xc_stack (rc_x c))) (length (xc_input (rc_x c)))) p eh c) <> RFuel) /\
+  (forall start input, 0 <= start < nstates -> Forall (fun t => 0 <= t_sym t < T) input ->
+     fst (rrun (parse_fuel F 1 (length input)) p eh start input) <> RFuel).
+Proof. exact rrun_fuel_validated. Qed.
+
+(* certified tables (both encodings) *)
+Theorem C19_recovering_parse_fuel_bound_on_certified_tables :
+  forall g p nstates finals nl ft ann eh F i,
+  lalr1 p -> shift_ok_sound p -> 0 <= rp_end p ->
+  check g (rp_m p) nstates finals nl ft ann = true ->
+  check_err_goto (rp_m p) nstates (vT g) (rp_err_sym p) = true ->
+  check_range (rp_m p) nstates (vT g) (vNS g) = true -> check_redterm (rp_m p) nstates (vT g) (vNS g) F = true ->
+  check_eoi (rp_m p) nstates (rp_end p) = true -> (i < ninputs g)%nat ->
+  (forall c, sinv g p i c ->
+     fst (rrun_loop (parse_fuel F (length (xc_stack (rc_x c))) (length (xc_input (rc_x c)))) p eh c) <> RFuel) /\
+  (forall input, toks_in g input -> fst (rrun (parse_fuel F 1 (length input)) p eh (Z.of_nat i) input) <> RFuel).
+Proof. exact rrun_fuel_certified. Qed.
+
+(* Still NOT proved (partial): (1) crash freedom without the side condition F <= 4: the model's reduceAll carries an iteration budget
+   the Go code does not have, so for tables with longer anchored reduction phases the model may answer RCrash 2 where the
+   generated parser simply keeps reducing (C19_recovering_parse_crashes_only_by_model_fuel pins the outcome down to exactly
+   that case); (2) for tables that only pass check_range/check_redterm (no certificate) the premise m_goto (-1) err = -1 of
+   C19_recovering_parse_terminates_on_validated_tables remains, and it is false in the model of optimized tables; note also
+   that eoi_ends (all integers as states) fails for opt_machine, so C19_recovering_parse_terminates is vacuous for optimized
+   tables while the validated/certified theorems use check_eoi (table states only). *)
 
 (* non-vacuity: a two-state machine with an 'error' transition; the input "x y" has a syntax error at x, recovery
    skips x, pushes the error entry, and the loop then shifts y into the end state *)
@@ -220,6 +335,22 @@ Proof.
   - vm_compute. reflexivity.
 Qed.
 
+(* non-vacuity of the certified-tables theorems: the same real tables with C01's grammar and generated certificate
+   pass check, check_err_goto, and check_redterm with F = 4 *)
+Definition g0 : grammar := mkGrammar 4 1 [mkRule 4 [2; 3; 3; 4] 0; mkRule 4 [] 0] [(4, true)] [].
+
+Example C19_certified_example :
+  check g0 (rp_m p0) 7 [6] (nullable_set g0) (first_sets g0) (fst (gen_cert g0 400)) = true /\
+  check_err_goto (rp_m p0) 7 (vT g0) (rp_err_sym p0) = true /\
+  check_range (rp_m p0) 7 (vT g0) (vNS g0) = true /\ check_redterm (rp_m p0) 7 (vT g0) (vNS g0) 4 = true /\
+  (0 < ninputs g0)%nat /\ toks_in g0 (toks_of [2; 3; 3; 2]) /\
+  parse_fuel 4 1 4 = 372%nat /\ fst (rrun (parse_fuel 4 1 4) p0 (fun _ => true) 0 (toks_of [2; 3; 3; 2])) = RSyntax 4 4.
+Proof.
+  split; [vm_compute; reflexivity|]. split; [vm_compute; reflexivity|]. split; [vm_compute; reflexivity|].
+  split; [vm_compute; reflexivity|]. split; [vm_compute; lia|].
+  split; [repeat constructor; simpl; discriminate|]. split; vm_compute; reflexivity.
+Qed.
+
 Print Assumptions C19_recovery_transparent.
 Print Assumptions C19_errors_inside_the_input_and_ordered.
 Print Assumptions C19_recovery_loop_terminates.
@@ -231,6 +362,15 @@ Print Assumptions C19_recovering_parse_fuel_bound.
 Print Assumptions C19_reductions_bounded_by_stack_depth.
 Print Assumptions C19_recovering_parse_terminates_on_validated_tables.
 Print Assumptions C19_recovering_parse_terminates_under_an_invariant.
+Print Assumptions C19_certified_stack_invariant.
+Print Assumptions C19_recovering_parse_crashes_only_by_model_fuel.
+Print Assumptions C19_recovering_parse_never_crashes.
+Print Assumptions C19_recovering_parse_terminates_on_certified_tables.
+Print Assumptions C19_recovering_parse_terminates_on_validated_optimized_tables.
+Print Assumptions C19_validate_zero_is_check.
+Print Assumptions C19_reductions_amortized_by_stack_depth.
+Print Assumptions C19_recovering_parse_fuel_bound_on_validated_tables.
+Print Assumptions C19_recovering_parse_fuel_bound_on_certified_tables.
 Print Assumptions C19_more_fuel_changes_nothing.
 Print Assumptions C19_conditions_hold_for_default_tables.
 Print Assumptions C19_conditions_hold_for_optimized_tables.
